@@ -129,6 +129,7 @@ func runC06(seed int64, n int, dir string, _ []string) {
 	defer pr.Close()
 	zoneLaws(o)
 	floatTexts(g, o, 2*n)
+	floatFormats(g, o, n)
 	dateTexts(g, o, 2*n)
 
 	// exhaustive Kleene tables against min/max/negation, on the real ternary package
@@ -529,9 +530,14 @@ func runC06(seed int64, n int, dir string, _ []string) {
 			if g.Intn(3) == 0 {
 				cv = value.NewFloat([]float64{1.5, -1.5, 2.9999, -0.5, 1e18, 9.3e18, -9.3e18, 1e300, math.NaN(), math.Inf(1), 9223372036854775807, -9223372036854775808}[g.Intn(12)])
 			}
-			fnName := g.Pick("integer", "float", "boolean", "ternary")
+			fnName := g.Pick("integer", "float", "boolean", "ternary", "string")
+			if _, isDt := cv.(*value.Datetime); isDt && fnName == "string" {
+				fnName = "float" // STRING(datetime) is a time.Format layout, outside the model
+			}
 			var fn func(parser.Function, []value.Primary, *option.Flags) (value.Primary, error)
 			switch fnName {
+			case "string":
+				fn = query.String
 			case "integer":
 				fn = query.Integer
 			case "float":
